@@ -155,7 +155,9 @@ class SystemClock: public Clock {
     void syncNow(acetime_t epochSeconds) {
       if (epochSeconds == kInvalidSeconds) return;
       mLastSyncTime = epochSeconds;
-      if (mEpochSeconds == epochSeconds) return;
+      // Compare with the time currently shown (getNow() folds the elapsed
+      // millis into mEpochSeconds first), not with a possibly stale value.
+      if (getNow() == epochSeconds) return;
 
       mEpochSeconds = epochSeconds;
       mPrevMillis = clockMillis();
